@@ -384,6 +384,19 @@ class Assembler:
             if a not in body:
                 raise AnchorError('body substitution anchor lost in %s: %r' % (qual, a))
             body = body.replace(a, b); counts['Rsub'] = counts.get('Rsub', 0) + 1
+        if opts.get('chainrw'):
+            # R12: Result adapter chains with closure arguments -> match expressions (tools/chainrw.py)
+            import chainrw
+            try:
+                body, nrw = chainrw.rewrite(body)
+            except Exception as e:
+                raise AnchorError('R12 cannot desugar the adapter chains of %s: %s' % (qual, e))
+            counts['R12'] = counts.get('R12', 0) + nrw
+        for (a, b) in opts.get('resub', []):
+            body2, k = re.subn(a, b, body)
+            if k == 0:
+                raise AnchorError('R12b substitution anchor lost in %s: %r' % (qual, a))
+            body = body2; counts['R12b'] = counts.get('R12b', 0) + k
         for callee in opts.get('inline', []):
             # R4b: a call `self.<callee>()` is replaced by the callee's one-expression body taken from /repo
             # (needed where R4 widened the callee's receiver to &mut self and the call sits under a live guard)
@@ -531,6 +544,9 @@ class Assembler:
                     if p.startswith('ret='): opts['ret'] = p[4:]
                     elif p == 'mutself': opts['mutself'] = True
                     elif p == 'async': opts['async'] = True
+                    elif p == 'chainrw': opts['chainrw'] = True
+                    elif p.startswith('resub='):
+                        a, b = p[6:].split('=>'); opts.setdefault('resub', []).append((a, b))
                     elif p.startswith('inline='): opts.setdefault('inline', []).append(p[7:])
                     elif p.startswith('assumed'): opts['assumed'] = p.partition('=')[2] or 'unchecked'
                     elif p.startswith('noclone'): pass
@@ -547,6 +563,23 @@ class Assembler:
                 while i < len(lines) and not lines[i].strip().startswith('//@endfn'):
                     ann.append((i + 1, lines[i])); i += 1
                 self.do_fn(repo_file, container, name, opts, ann, i + 1)
+            elif s.startswith('//@consts'):
+                # //@consts <repo file> | <container or -> : every const/static item of the container (zero or more), verbatim (R6)
+                parts = [p.strip() for p in s[len('//@consts'):].split('|')]
+                src, items = load(parts[0])
+                for c in containers(items, parts[1]):
+                    its = items if c is None else c.children()
+                    for it in its:
+                        if it.kind in ('const', 'static') and '#[cfg(test)]' not in it.attrs:
+                            counts = {}
+                            text = transform_common(it.proper, counts)
+                            if not re.match(r'\s*pub\b', text):
+                                text = 'pub ' + text.lstrip(); counts['R11'] = counts.get('R11', 0) + 1
+                            for k, v in counts.items():
+                                self.rule_counts[k] = self.rule_counts.get(k, 0) + v
+                            ls = it.line_span()
+                            self.items_used.append({'file': parts[0], 'item': it.kind + ' ' + it.name, 'lines': ls, 'sha256': hashlib.sha256(it.proper.encode()).hexdigest()[:16]})
+                            self.emit_block(text, '%s:%d' % (parts[0], ls[0]))
             elif s.startswith('//@fields'):
                 # //@fields <repo file> | struct Name | a,b,c  : the prelude declares this struct; its field names must match /repo (R10)
                 parts = [p.strip() for p in s[len('//@fields'):].split('|')]
